@@ -161,6 +161,9 @@ class LayeredArchitectureAutomaton:
             if not self.pending():
                 return "REJECT"
             self.pending()[0][1:] = [[arg], "regex"]
+            # a regex that is literally a module name claims that module: offering the same name to another layer by
+            # name afterwards would put it into two layers (the reverse order cannot be judged without a code base)
+            self.assigned.add(arg)
             return None
         raise ValueError(name)
 
